@@ -34,6 +34,14 @@ def dist_checks(tier):
         lc = Poisson.logcdf(ks[:10], torch.tensor(lam)).double()
         if (lc - torch.log(cdf[:10])).abs().max().item() > 1e-4:
             out.append(_f("Poisson/logcdf", dict(rate=lam), "log cdf", "differs"))
+    # degenerate rate 0 (a valid parameter): all mass at 0, exp(logpmf) = pmf without NaN
+    cases += 1
+    ks0 = torch.arange(0, 6, dtype=torch.float64)
+    zero = torch.tensor(0.0, dtype=torch.float64)
+    pmf0, lp0 = Poisson.pmf(ks0, zero).double(), Poisson.logpmf(ks0, zero).double()
+    exp0 = torch.tensor([1.0, 0, 0, 0, 0, 0], dtype=torch.float64)
+    if torch.isnan(pmf0).any() or (pmf0 - exp0).abs().max().item() > 1e-9 or torch.isnan(lp0).any() or (torch.exp(lp0) - exp0).abs().max().item() > 1e-9:
+        out.append(_f("Poisson/zero_rate_point_mass", dict(rate=0.0), exp0.tolist(), [pmf0.tolist(), lp0.tolist()]))
     for mu, sg in itertools.product((-1.0, 0.0, 2.0), (0.3, 1.0, 2.0)):
         for name, D, xs in (("Normal", Normal, torch.linspace(mu - 12 * sg, mu + 12 * sg, 20001, dtype=torch.float64)),
                             ("LogNormal", LogNormal, torch.exp(torch.linspace(mu - 12 * sg, mu + 12 * sg, 20001, dtype=torch.float64)))):
